@@ -17,6 +17,6 @@ for c in "$@"; do
      python3 -c "import json,sys; r=json.load(open('$f')); print('     ', r['kind'], '|', str(r.get('case'))[:160], '|', (r.get('detail') or '')[:300].replace(chr(10),' '))"
   else echo "$c MISSED (exit $rc)"; echo "$out" | tail -3; fi
 done
-git -C /repo worktree remove --force "$W"; rm -rf "$O"
+( flock 9; git -C /repo worktree remove --force "$W" ) 9>/tmp/pv-worktree.lock; rm -rf "$O"
 # Params.v may have been regenerated from the mutated tree: restore it from /repo
 python3 /verif/tools/gen_params.py >/dev/null
